@@ -56,11 +56,16 @@ fn gen_start(rng: &mut Rng, focus: &str) -> Start {
                 let n = rng.below(100) as usize;
                 let mut bytes: Vec<u8> = (0..n).map(|_| rng.next() as u8).collect();
                 if rng.chance(1, 2) && n >= 16 {
-                    // Keep the magic so that validation goes further than its first test.
-                    bytes[..16].copy_from_slice(&segment_bytes(rng.below(2) as u16, rng.below(3) as u16, 0)[..16]);
-                    if rng.chance(1, 2) {
-                        bytes[8..12].copy_from_slice(&(rng.below(72) as u32).to_ne_bytes());
-                    }
+                    // Keep the magic so that validation goes further than its first test, but make
+                    // sure the header is one that clients reject (this engine models files no
+                    // client can have attached to; header-valid files are C16's subject).
+                    let (version, gen, size) = match rng.below(3) {
+                        0 => (0u16, rng.below(3) as u16, 72u32),
+                        1 => (1, 0, 72),
+                        _ => (1, 2, rng.below(72) as u32),
+                    };
+                    bytes[..16].copy_from_slice(&segment_bytes(version, gen, 0)[..16]);
+                    bytes[8..12].copy_from_slice(&size.to_ne_bytes());
                 }
                 Start::Garbage(bytes)
             } else {
@@ -95,7 +100,7 @@ fn gen_scenario(seed: u64, focus: &str) -> Scenario {
         for _ in 0..pubs {
             writer.push(WOp::Publish);
         }
-        if with_stops && (round + 1 < rounds || rng.chance(1, 2)) {
+        if with_stops && (round + 1 < rounds || rng.chance(1, if focus == "C18" { 2 } else { 8 })) {
             // Stop somewhere in this round: inside start-up (rarely) or inside one publication.
             if rng.chance(1, 6) {
                 stops.push((first - 1, 1 + rng.below(24)));
@@ -335,7 +340,7 @@ fn mode_stopenum(args: &std::collections::HashMap<String, String>) -> Value {
                     let out = run_scenario(&sc, &dir, false, true);
                     if let Some((_, site, opname)) = out.stopped_sites.first() {
                         reached = true;
-                        *table.entry(format!("{}|{}:{}", start.name(), opname, site)).or_insert(0) += 1;
+                        *table.entry(format!("{:02}:{}|op{}:{}|k{:02}:{}", si, start.name(), op, opname, k, site)).or_insert(0) += 1;
                     }
                     agg.add(&sc, &out, &property, &replay_dir, &format!("stopenum-{}-{}", seed, job));
                 }
